@@ -108,7 +108,7 @@ def _decode(img):
     return k
 
 
-def frames_event(s, n, rng):
+def frames_event(s, n, rng, via_solver=None):
     """n dispatches on an instance with n operations, then the real
     create_gantt_chart_gif on the recorded history; the GIF is decoded."""
     import imageio
@@ -130,8 +130,13 @@ def frames_event(s, n, rng):
     def go():
         gif = os.path.join(tmp, "a.gif")
         del AXIS_ENDS[:]
-        create_gantt_chart_gif(instance, gif, plot_function=_band_plotter, fps=50,
-                               schedule_history=list(h.history))
+        if via_solver:      # the library records the history itself while the solver runs
+            from job_shop_lib.dispatching.rules import DispatchingRuleSolver
+            create_gantt_chart_gif(instance, gif, solver=DispatchingRuleSolver(via_solver), plot_function=_band_plotter,
+                                   fps=50)
+        else:
+            create_gantt_chart_gif(instance, gif, plot_function=_band_plotter, fps=50,
+                                   schedule_history=list(h.history))
         return [_decode(f) for f in imageio.mimread(gif, memtest=False)]
 
     try:
@@ -140,7 +145,8 @@ def frames_event(s, n, rng):
         shutil.rmtree(tmp, ignore_errors=True)
     s._ev({"a": "Frames", "n": n, "out": out, "ks": ks if out == "ok" else [],
            "axis_ends": list(AXIS_ENDS) if n <= 200 else list(AXIS_ENDS[:50]),
-           "final_makespan": int(d.schedule.makespan())})
+           "final_makespan": int(d.schedule.makespan())} if not via_solver else
+          {"a": "Frames", "n": n, "out": out, "ks": ks if out == "ok" else [], "via": "solver:" + via_solver})
 
 
 def creator_frames_events(s, rng, n1, n2, video=False):
@@ -238,6 +244,8 @@ def c20():
         frames_event(s, n, rng)
         traces.append(s.trace())
     s = dsession.DSession(n0 + len(sizes) + 1, [[{"ms": [1], "d": 1}]], [], ())
+    frames_event(s, 12, rng, via_solver="shortest_processing_time")
+    frames_event(s, 31, rng, via_solver="most_work_remaining")
     creator_frames_events(s, rng, 7, 4)
     creator_frames_events(s, rng, 3, 9)
     creator_frames_events(s, rng, 5, 6, video=True)
